@@ -52,7 +52,7 @@ def check_classification(report):
     TOK = "self.input.fields.get('page_token', None)"
     NXT = "self.output.fields.get('next_page_token', None)"
     SIZE = "next((_c1 for _c1 in [self.input.fields.get('max_results', None), self.input.fields.get('page_size', None)] if _c1), None)"
-    SIZE_OK = (f"{SIZE}.type == int or (isinstance({SIZE}.type, MessageType) and {SIZE}.type.message_pb.name in {{'Int32Value', 'UInt32Value'}})")
+    SIZE_OK = (f"OR(AND(isinstance({SIZE}.type, MessageType); {SIZE}.type.message_pb.name in {{'Int32Value', 'UInt32Value'}}); {SIZE}.type == int)")
     expected = [
         ((TOK, True), "self.input.page_token: present", "the request must have a `page_token` field"),
         ((f"{TOK}.type == str", True), "self.input.page_token: str", "the request's `page_token` (that same field) must be a string"),
